@@ -150,8 +150,9 @@ fn check<D: Codec>(
     for (fname, fe) in [("B", &b), ("A", &ar.fe), ("P", &pr.fe)] {
         match &expect {
             None => {
-                if fe.pkt().is_none() {
-                    out.violate(sig(format!("{fname}:native-rejected")), format!("a valid native CONNECT was not accepted by {fname}: {}", fe_long::<D>(fe)));
+                // native decoding is C01's business; here it only serves as the reference for resume
+                if fe.pkt().is_some() {
+                    out.probe("native-accepted");
                 }
             }
             Some(want) => {
